@@ -6,7 +6,7 @@ import re
 
 from .. import oracles as O
 from ..fold import Scope, dotted, src
-from .common import (attr_stores, ctx, ff_for, find_calls, must_pass, node_calls, own_nodes, path_text)
+from .common import (attr_stores, ctx, ff_for, find_calls, must_pass, node_calls, own_nodes, path_text, substitute_src)
 from .edscommon import ATTR_KEYS, E, OD, reader_pairs, signed_widths, writer_pairs
 
 EXPLANATION = (
@@ -294,6 +294,170 @@ def run(chk):
     # sub-index sections are attached to their parent record/array
     adds = [c for c in ast.walk(ie.node) if isinstance(c, ast.Call) and dotted(c.func) == "entry.add_member"]
     chk.check(len(adds) >= 2, "R8", f"{E}:import_eds | members attached to parent", ie.loc(), "")
+    # ------------------------------------------------------------------ R10 what each section kind contributes (def-use inside import_eds)
+    def rdef(name, at):
+        d = fi.raw_def_at(name, at)
+        return src(d) if d is not None else None
+
+    def pattern_role_of(at):
+        m = fi.raw_def_at("match", at)
+        if isinstance(m, ast.Call) and dotted(m.func) == "re.match" and m.args:
+            p_ = folder.try_fold(m.args[0], sc, None)
+            return next((r for r, pp in roles.items() if pp == p_), None)
+        return None
+
+    bcalls = {len(c.args): c for c in calls}
+    # (a) sub-index sections
+    subc = [c for c in calls if len(c.args) == 5 and src(c.args[4]) == "subindex"]
+    chk.floor("R10", len(subc), 1, "build_variable(..., index, subindex) for sub-index sections")
+    for c in subc:
+        st = fi.stmt_of(c)
+        chk.check(pattern_role_of(st) == "sub-index" and rdef("index", st) == "int(match.group(1), 16)" and rdef("subindex", st) == "int(match.group(2), 16)", "R10",
+                  f"{E}:import_eds | sub-index section: index and sub-index come from the section name", ie.loc(c),
+                  f"index = {rdef('index', st)}, subindex = {rdef('subindex', st)} (match of the {pattern_role_of(st)} pattern); a sub-index section that does not "
+                  "directly follow its parent is attached to the wrong object")
+        tgt = src(st.targets[0]) if isinstance(st, ast.Assign) else None
+        att = [a for a in adds if a.args and src(a.args[0]) == tgt and fi.raw_def_at(tgt, fi.stmt_of(a)) is c]
+        chk.check(len(att) == 1 and rdef("entry", fi.stmt_of(att[0])) == "od[index]" if att else False, "R10",
+                  f"{E}:import_eds | sub-index section: member attached to od[index]", ie.loc(c), f"{[src(a) for a in att]}")
+        for a in att:
+            g = [(fi.norm(e, subst=False), p) for e, p in fi.facts_at(fi.stmt_of(a))]
+            neg = [t for t, p in g if not p and "match is" not in t]
+            chk.check(not neg, "R10", f"{E}:import_eds | sub-index section: member attached unconditionally", ie.loc(a), f"attached under {g}")
+    # (b) name-list sections of compact arrays
+    cps = [c for c in ast.walk(ie.node) if isinstance(c, ast.Call) and dotted(c.func) == "copy_variable"]
+    chk.floor("R10", len(cps), 1, "copy_variable calls (compact sub-object expansion)")
+    for c in cps:
+        st = fi.stmt_of(c)
+        lps = [l for l in ast.walk(ie.node) if isinstance(l, ast.For) and any(x is c for x in ast.walk(l)) and isinstance(l.target, ast.Name) and l.target.id != "section"]
+        lp = lps[-1] if lps else None
+        ok = lp is not None and [src(a) for a in c.args] == ["eds", "section", src(lp.target), "src_var"]
+        chk.check(ok, "R10", f"{E}:import_eds | name list: copy_variable(eds, section, <sub-index>, src_var)", ie.loc(c), src(c))
+        if lp is None:
+            continue
+        it = lp.iter
+        cnt = None
+        okr = isinstance(it, ast.Call) and dotted(it.func) == "range" and len(it.args) == 2 and folder.try_fold(it.args[0], sc, None) == 1
+        if okr:
+            nm = [x.id for x in ast.walk(it.args[1]) if isinstance(x, ast.Name)]
+            okr = len(nm) == 1 and fi.norm(it.args[1], subst=False) in (f"{nm[0]} + 1", f"1 + {nm[0]}")
+            cnt = nm[0] if nm else None
+        chk.check(okr, "R10", f"{E}:import_eds | name list: sub-indices 1..NrOfEntries", ie.loc(lp), f"loop over {src(it)}")
+        if cnt:
+            chk.check(rdef(cnt, lp) == "int(eds.get(section, 'NrOfEntries'), 0)", "R10", f"{E}:import_eds | name list: count from NrOfEntries", ie.loc(lp), f"{cnt} = {rdef(cnt, lp)}")
+        chk.check(pattern_role_of(lp) == "name-list" and rdef("index", lp) == "int(match.group(1), 16)" and rdef("src_var", lp) == "od[index][1]", "R10",
+                  f"{E}:import_eds | name list: template is sub-index 1 of the array named by the section", ie.loc(lp),
+                  f"index = {rdef('index', lp)}, src_var = {rdef('src_var', lp)}")
+        tgt = src(st.targets[0]) if isinstance(st, ast.Assign) else None
+        att = [a for a in adds if a.args and src(a.args[0]) == tgt and any(x is a for x in ast.walk(lp))]
+        chk.check(len(att) == 1 and rdef("entry", lp) == "od[index]", "R10", f"{E}:import_eds | name list: each copy attached to od[index]", ie.loc(c), f"{[src(a) for a in att]}; entry = {rdef('entry', lp)}")
+        for a in att:
+            g = [(fi.norm(e, subst=False), p) for e, p in fi.facts_at(fi.stmt_of(a)) if "match is" not in fi.norm(e, subst=False)]
+            chk.check(g == [(f"{tgt} is not None", True)] or g == [(f"{tgt} is None", False)], "R10", f"{E}:import_eds | name list: every present copy attached", ie.loc(a), f"attached under {g}")
+    # (c) index sections: the object built from the section is the one added, under the index in the section name
+    addobj = [c for c in ast.walk(ie.node) if isinstance(c, ast.Call) and dotted(c.func) == "od.add_object"]
+    made = {}
+    for n in own_nodes(ie.node):
+        if isinstance(n, ast.Assign) and isinstance(n.value, ast.Call) and isinstance(n.targets[0], ast.Name):
+            f_ = (dotted(n.value.func) or "").split(".")[-1]
+            if f_ in ("ODArray", "ODRecord") or (f_ == "build_variable" and len(n.value.args) == 4):
+                made[id(n)] = (n, f_)
+    chk.floor("R10", len(made), 4, "objects built from index sections")
+    for n, f_ in made.values():
+        c = n.value
+        tgt = n.targets[0].id
+        a_name, a_idx = (None, src(c.args[3])) if f_ == "build_variable" else (src(c.args[0]), src(c.args[1]) if len(c.args) > 1 else None)
+        chk.check(a_idx == "index" and rdef("index", n) == "int(section, 16)" and pattern_role_of(n) == "index", "R10", f"{E}:import_eds | index section: {f_} at the index of the section name",
+                  ie.loc(n), f"{src(c)} with index = {rdef('index', n)}")
+        if a_name is not None:
+            chk.check(a_name == "name" and rdef("name", n) == "eds.get(section, 'ParameterName')", "R10", f"{E}:import_eds | index section: {f_} named by ParameterName", ie.loc(n),
+                      f"{src(c)} with name = {rdef('name', n)}")
+        node_n = fi.cfg.node_of(n)
+        wit = must_pass(fi.cfg, lambda m_: m_.kind == "stmt" and any(x in addobj and x.args and src(x.args[0]) == tgt for x in ast.walk(m_.ast)) and fi.raw_def_at(tgt, m_.ast) is c,
+                        from_node=node_n, to_nodes=[x for x in fi.cfg.nodes if x.kind in ("for",) and src(x.ast.target if hasattr(x.ast, "target") else x.ast) == "section"] + [fi.cfg.exit])
+        chk.check(wit is None, "R10", f"{E}:import_eds | index section: the {f_} built at line {n.lineno} is added to the dictionary", ie.loc(n),
+                  f"a path to the next section does not add it: {path_text(wit) if wit else ''}")
+    # compact arrays: sub-index 0 (UNSIGNED8) and the template at sub-index 1
+    comp = [c for c in calls if len(c.args) == 5 and folder.try_fold(c.args[4], sc, None) == 1]
+    chk.check(len(comp) == 1, "R10", f"{E}:import_eds | compact array: template built at sub-index 1", ie.loc(), f"{[src(c) for c in calls]}")
+    arr_adds = [c for c in ast.walk(ie.node) if isinstance(c, ast.Call) and dotted(c.func) == "arr.add_member"]
+    firsts = []
+    for a in arr_adds:
+        if a.args and isinstance(a.args[0], ast.Name):
+            d = fi.raw_def_at(a.args[0].id, fi.stmt_of(a))
+            if isinstance(d, ast.Call) and (dotted(d.func) or "").endswith("ODVariable") and len(d.args) == 3:
+                firsts.append((a, d))
+    chk.check(len(firsts) == 1 and src(firsts[0][1].args[1]) == "index" and folder.try_fold(firsts[0][1].args[2], sc, None) == 0, "R10",
+              f"{E}:import_eds | compact array: sub-index 0 member", ie.loc(), f"{[src(d) for _, d in firsts]}")
+    for a, d in firsts:
+        nm = a.args[0].id
+        dts = [n for n in own_nodes(ie.node) if isinstance(n, ast.Assign) and src(n.targets[0]) == f"{nm}.data_type"]
+        chk.check(len(dts) == 1 and folder.try_fold(dts[0].value, sc, None) == O.DATA_TYPES["UNSIGNED8"][0], "R10", f"{E}:import_eds | compact array: sub-index 0 is UNSIGNED8", ie.loc(a),
+                  f"{[src(x) for x in dts]}")
+        chk.check(any(x in arr_adds and x.args and any(y is comp[0] for y in ast.walk(x)) for x in ast.walk(ie.node)) if comp else False, "R10",
+                  f"{E}:import_eds | compact array: template attached", ie.loc(a), "")
+    # (d) file-level information
+    cm = [n for n in own_nodes(ie.node) if isinstance(n, ast.Assign) and src(n.targets[0]) == "od.comments"]
+    chk.floor("R10", len(cm), 1, "od.comments store")
+    for n in cm:
+        v = n.value
+        ok = isinstance(v, ast.Call) and src(v.func) == "'\\n'.join" and len(v.args) == 1 and isinstance(v.args[0], (ast.ListComp, ast.GeneratorExp))
+        if ok:
+            comp_ = v.args[0]
+            gen = comp_.generators[0]
+            lv = src(gen.target)
+            okr = isinstance(gen.iter, ast.Call) and dotted(gen.iter.func) == "range" and len(gen.iter.args) == 2 and folder.try_fold(gen.iter.args[0], sc, None) == 1 \
+                and fi.norm(gen.iter.args[1], subst=False) in ("linecount + 1", "1 + linecount") and not gen.ifs and len(comp_.generators) == 1
+            key = comp_.elt.args[1] if isinstance(comp_.elt, ast.Call) and src(comp_.elt.func) == "eds.get" and len(comp_.elt.args) == 2 else None
+            kprobe = None
+            if key is not None:
+                kprobe = [folder.try_fold(substitute_src(key, {lv: i}), sc, None) for i in (1, 12)]
+            ok = okr and kprobe == ["Line1", "Line12"] and src(comp_.elt.args[0]) == "'Comments'" and rdef("linecount", n) == "int(eds.get('Comments', 'Lines'), 0)"
+        chk.check(ok, "R10", f"{E}:import_eds | comments: Line1..Line<Lines> joined by newlines", ie.loc(n), src(v)[:120])
+    br = [n for n in own_nodes(ie.node) if isinstance(n, ast.Assign) and src(n.targets[0]) == "od.bitrate"]
+    chk.floor("R10", len(br), 1, "od.bitrate store")
+    for n in br:
+        chk.check(fi.norm(n.value, subst=False) in ("val * 1000", "1000 * val"), "R10", f"{E}:import_eds | bit rate: Baudrate is kbit/s", ie.loc(n), src(n))
+    bl = [l for l in ast.walk(ie.node) if isinstance(l, ast.For) and isinstance(l.iter, (ast.List, ast.Tuple)) and isinstance(l.target, ast.Name)
+          and any(isinstance(c, ast.Call) and src(c.func).endswith("allowed_baudrates.add") for c in ast.walk(l))]
+    chk.floor("R10", len(bl), 1, "allowed baud rate loop")
+    for l in bl:
+        rates = folder.try_fold(l.iter, sc, None)
+        chk.check(list(rates or []) == O.EDS_BAUDRATES, "R10", f"{E}:import_eds | baud rates: the eight CiA 306 BaudRate_<n> options", ie.loc(l), f"{rates}")
+        rv = l.target.id
+        addc = [c for c in ast.walk(l) if isinstance(c, ast.Call) and src(c.func).endswith("allowed_baudrates.add")]
+        for c in addc:
+            chk.check(fi.norm(c.args[0], subst=False) in (f"{rv} * 1000", f"1000 * {rv}"), "R10", f"{E}:import_eds | baud rates: stored in bit/s", ie.loc(c), src(c))
+            g = [(fi.norm(e, subst=False), p) for e, p in fi.facts_at(fi.stmt_of(c))]
+            gg = [(t, p) for t, p in g if "baudPossible" in t or rv in t]
+            chk.check(gg in ([("baudPossible != 0", True)], [("baudPossible == 0", False)], [("baudPossible", True)]), "R10", f"{E}:import_eds | baud rates: added when the option is non-zero", ie.loc(c), f"{gg}")
+            bp = fi.raw_def_at("baudPossible", fi.stmt_of(c))
+            okb = False
+            if isinstance(bp, ast.Call) and dotted(bp.func) == "int" and len(bp.args) == 2 and isinstance(bp.args[0], ast.Call) and len(bp.args[0].args) >= 2:
+                kp = [folder.try_fold(substitute_src(bp.args[0].args[1], {rv: i}), sc, None) for i in (10, 1000)]
+                okb = kp == ["BaudRate_10", "BaudRate_1000"] and src(bp.args[0].args[0]) == "'DeviceInfo'"
+            chk.check(okb, "R10", f"{E}:import_eds | baud rates: option name BaudRate_<kbit/s>", ie.loc(c), src(bp) if bp is not None else "?")
+    # DeviceInfo: both conversion branches store the attribute named in the table
+    if imp_tab is not None:
+        sets = [c for c in ast.walk(imp_tab[1]) if isinstance(c, ast.Call) and dotted(c.func) == "setattr"]
+        tn, en, on = [src(x) for x in imp_tab[1].target.elts]
+        kinds_ = set()
+        for c in sets:
+            g = [fi.norm(e, subst=False) for e, p in fi.facts_at(fi.stmt_of(c)) if p]
+            ok = len(c.args) == 3 and src(c.args[0]) == "od.device_information" and src(c.args[1]) == on
+            chk.check(ok, "R10", f"{E}:import_eds | DeviceInfo stored on od.device_information.<attribute>", ie.loc(c), src(c)[:80])
+            v = src(c.args[2]) if len(c.args) == 3 else ""
+            if v == f"{tn}(int(eds.get('DeviceInfo', {en}), 0))":
+                kinds_.add("num")
+                chk.check(any(x in (f"{tn} in (int, bool)", f"{tn} in (bool, int)") for x in g), "R10", f"{E}:import_eds | DeviceInfo numeric conversion for int/bool", ie.loc(c), f"{g}")
+            elif v == f"eds.get('DeviceInfo', {en})":
+                kinds_.add("str")
+                chk.check(any(x in (f"{tn} is str", f"{tn} == str", f"{tn} not in (int, bool)", f"{tn} not in (bool, int)") for x in g) or any(x in (f"{tn} in (int, bool)", f"{tn} in (bool, int)") for e, p in fi.facts_at(fi.stmt_of(c)) if not p for x in [fi.norm(e, subst=False)]),
+                          "R10", f"{E}:import_eds | DeviceInfo text taken verbatim for str", ie.loc(c), f"{g}")
+            else:
+                chk.bad("R10", f"{E}:import_eds | DeviceInfo value `{v[:50]}`", ie.loc(c), "neither the numeric conversion nor the verbatim text")
+        chk.check(kinds_ == {"num", "str"}, "R10", f"{E}:import_eds | DeviceInfo: numeric and text options both stored", f"{E}:{imp_tab[1].lineno}", f"stores found for {sorted(kinds_)}")
+
     # ------------------------------------------------------------------ R9 suffix dispatch
     io = repo.func(OD, "import_od", "C08.R9")
     fio = ff_for(chk, io, "C08.R9")
